@@ -74,39 +74,38 @@ inductive Decoded where
   | message                       -- innermost layer is the message layer
   deriving Repr, DecidableEq
 
+/-- the innermost step: the message layer decodes `mi` into the session's message layer -/
+def onMessage (s : Sess) (mi : GoSlice) : Sess × Decoded :=
+  if mi.len == 0 then (s, .notMessage) else
+  match Message.decodeGo 8 s.msg mi with
+  | .err => (s, .fail)
+  | .panic | .overread => (s, .crash)
+  | .ok m => ({ s with msg := m }, .message)
+
+/-- after the session wrapper decoded to `v`: the confidentiality layer, when the packet is flagged encrypted -/
+def onWrapper (C : Ops) (s : Sess) (v : V2Session) : Sess × Decoded :=
+  if v.payload.isEmpty then ({ s with v2 := v }, .notMessage) else
+  if v.payloadType != 0 then ({ s with v2 := v }, .notMessage) else
+  if v.encrypted then
+    match AESLayer.decodeGo C s.k2 true {} (GoSlice.ofBytes v.payload) with
+    | .ok a => onMessage { s with v2 := v } (GoSlice.ofBytes a.payload)
+    | .err => ({ s with v2 := v }, .fail)
+    | .panic | .overread => ({ s with v2 := v }, .crash)
+  else onMessage { s with v2 := v } (GoSlice.ofBytes v.payload)
+
 /-- gopacket `LayersDecoder` over [RMCP, SessionSelector, V2Session, AES, Message], writing into the session's layers -/
 def onReply (C : Ops) (s : Sess) (d : GoSlice) : Sess × Decoded :=
   match RMCP.decodeGo s.rmcp d with
   | .err => (s, .fail)
   | .panic | .overread => (s, .crash)
   | .ok (r, p) =>
-    let s := { s with rmcp := r }
-    if p.len == 0 then (s, .notMessage) else
-    if r.cls != 7 then (s, .notMessage) else
-    if p.vis.getD 0 0 != 6 then (s, .notMessage) else          -- SessionSelector → V1Session: no decoder registered
+    if p.len == 0 then ({ s with rmcp := r }, .notMessage) else
+    if r.cls != 7 then ({ s with rmcp := r }, .notMessage) else
+    if p.vis.getD 0 0 != 6 then ({ s with rmcp := r }, .notMessage) else   -- SessionSelector → V1Session: no decoder registered
     match V2Session.decodeGo (integMac C s.integ s.k1) s.v2 p with
-    | .err => (s, .fail)
-    | .panic | .overread => (s, .crash)
-    | .ok v =>
-      let s := { s with v2 := v }
-      if v.payload.isEmpty then (s, .notMessage) else
-      if v.payloadType != 0 then (s, .notMessage) else
-      let inner := GoSlice.ofBytes v.payload
-      let msgIn : R GoSlice :=
-        if v.encrypted then
-          match AESLayer.decodeGo C s.k2 true {} inner with
-          | .ok a => .ok (GoSlice.ofBytes a.payload)
-          | .err => .err | .panic => .panic | .overread => .overread
-        else .ok inner
-      match msgIn with
-      | .err => (s, .fail)
-      | .panic | .overread => (s, .crash)
-      | .ok mi =>
-        if mi.len == 0 then (s, .notMessage) else
-        match Message.decodeGo 8 s.msg mi with
-        | .err => (s, .fail)
-        | .panic | .overread => (s, .crash)
-        | .ok m => ({ s with msg := m }, .message)
+    | .err => ({ s with rmcp := r }, .fail)
+    | .panic | .overread => ({ s with rmcp := r }, .crash)
+    | .ok v => onWrapper C { s with rmcp := r } v
 
 def isTemp (c : UInt8) : Bool := c == 0xC0 || c == 0xC3
 
